@@ -302,6 +302,8 @@ where
                     });
                 }
                 None => {
+                    // Do not keep an invalid root around: the next solve() draws again.
+                    self.goal_tree.clear();
                     self.rng = Some(rng);
                     return Err(PlanningError::NoSolutionFound);
                 }
